@@ -812,7 +812,17 @@ func flattenVal(v Val) []*Term {
 		}
 		return ts
 	case PtrHeap:
-		return []*Term{x.Ref}
+		ts := []*Term{x.Ref}
+		for _, p := range x.Path {
+			ts = append(ts, BVu(uint64(p), 64))
+		}
+		return ts
+	case PtrElemH:
+		ts := []*Term{x.S.Base, Add(x.S.Off, x.Idx)}
+		for _, p := range x.Path {
+			ts = append(ts, BVu(uint64(p), 64))
+		}
+		return ts
 	case IfaceSym:
 		return []*Term{x.ID}
 	case ErrV:
